@@ -225,6 +225,17 @@ class EllipseFitter:
             # pay a (hopefully smaller) price here, by having multiple
             # calls to the EllipseSample constructor.
             sample = corrector.correct(sample, largest_harmonic)
+
+            # a zero or non-finite gradient gives a non-finite
+            # correction; the geometry has diverged and cannot be
+            # sampled: return the best fit sample instead.
+            geometry = sample.geometry
+            if not np.all(np.isfinite((geometry.x0, geometry.y0,
+                                       geometry.eps, geometry.pa))):
+                minimum_amplitude_sample.update(fixed_parameters)
+                return Isophote(minimum_amplitude_sample, i + 1, valid=True,
+                                stop_code=-1)
+
             sample.update(fixed_parameters)
 
             # see if any abnormal (or unusual) conditions warrant
